@@ -63,7 +63,7 @@ class Query:
     def __init__(self, name, src, entry, desc, defs=(), link=(), ll2c=(), extra_c=(), cbmc=(), unwind=2, max_unwind=96,
                  timeout=600, mem_gb=24, objbits=10, witness=True, validate=24, small_mask=0, clang=(), tiers=('quick', 'thorough'),
                  stubs=(), assumptions=(), native_extra=(), weight=1, kf_defs=(), expect_fail_label=None, unwindset=None,
-                 native_defs=(), solver=(), conc=False, nt=3, rounds=24, yield_atomics=False):
+                 native_defs=(), solver=(), conc=False, nt=3, rounds=24, yield_atomics=False, recursion=0):
         self.name = name; self.src = src; self.entry = entry; self.desc = desc
         self.defs = list(defs); self.link = list(link); self.ll2c = list(ll2c); self.extra_c = list(extra_c)
         self.cbmc = list(cbmc); self.unwind = unwind; self.max_unwind = max_unwind; self.timeout = timeout
@@ -73,6 +73,7 @@ class Query:
         self.kf_defs = list(kf_defs); self.expect_fail_label = expect_fail_label
         self.unwindset = dict(unwindset or {}); self.native_defs = list(native_defs); self.solver = list(solver)
         self.conc = conc; self.nt = nt; self.rounds = rounds; self.yield_atomics = yield_atomics
+        self.recursion = recursion   # initial CBMC recursion bound for functions on a call cycle (raised by the tuner like a loop bound when its unwinding assertion fails)
 
 
 class SmtQuery:
@@ -221,6 +222,11 @@ class Runner:
         cache = load_cache().get(key)
         bounds = dict(q.unwindset)
         default = q.unwind
+        if q.recursion:
+            try:
+                mrec = re.search(r'/\* VERIF-RECURSIVE: (.*?) \*/', open(cfile).read())
+                for fn in (mrec.group(1).split() if mrec else []): bounds.setdefault(fn, q.recursion)
+            except OSError: pass
         deadline = time.time() + q.timeout
         tuned = False
         if cache:
